@@ -173,6 +173,18 @@ def scenarios(P):
             'defaults': [], 'conf': {},
             'probes': [('get', ['d'])],
         },
+        's15-dir-overrides-deprecated-name': {
+            # a renamed default whose OLD name is overridden in policy.d only;
+            # an unrelated main-file rule is edited.  The override governs the
+            # new name before and after
+            'old': {'policy.yaml': {'x': 'role:x1'},
+                    'd1/o.yaml': {'o': 'role:ovr'}},
+            'new': {'policy.yaml': {'x': 'role:x2'}},
+            'defaults': lambda: [P.RuleDefault(
+                'n', 'role:new', deprecated_rule=dep('o', 'role:old'))],
+            'conf': {'enforce_new_defaults': False},
+            'probes': [('n', ['ovr']), ('n', ['new'])],
+        },
         's5-alias-halves-swap': {
             'old': {'policy.yaml': {'a': 'rule:h1 and rule:h2',
                                     'h1': 'role:p', 'h2': 'role:q'}},
@@ -196,7 +208,8 @@ TIERS = {
                         's11-no-overwrite-dir-edit',
                         's12-empty-main-file-rewritten',
                         's13-default-is-a-reference',
-                        's14-reference-to-dir-override'],
+                        's14-reference-to-dir-override',
+                        's15-dir-overrides-deprecated-name'],
                   bound=2, reduced=True, opcode=False,
                   probes={'s1-main-edit-dir-override': [2, 1],
                           's1b-main-edit-dir-touched': [1],
@@ -211,7 +224,8 @@ TIERS = {
                           's11-no-overwrite-dir-edit': [1, 1],
                           's12-empty-main-file-rewritten': [1],
                           's13-default-is-a-reference': [1],
-                          's14-reference-to-dir-override': [1]}),
+                          's14-reference-to-dir-override': [1],
+                          's15-dir-overrides-deprecated-name': [1, 1]}),
     'thorough': dict(scen=None, bound=2, reduced=False, opcode=True,
                      probes=None),
 }
